@@ -32,7 +32,7 @@ Origin(s) == [i \in 1..Len(s) |-> 0]
 
 Init == /\ shape \in Shapes
         /\ pos \in {Origin(shape), Middle(shape), Corner(shape)}
-        /\ layout \in {"C", "F", "transposed", "strided"}
+        /\ layout \in {"C", "F", "transposed", "strided", "readonly"}
         /\ others \in {"moved", "scaled", "leave-domain", "huge", "zero"}
         /\ m \in {"central", "forward", "backward", "complex", "multicomplex"}
         /\ n \in 1..4 /\ o \in {2, 4}
